@@ -12,6 +12,7 @@ EXPLANATION = (
     "path from completion to the return. [RA-COUNT] the completion counter is increased by the length of exactly the bytes stored for the frame. [RA-TRUNC] the payload handed to the decoder is cut to the announced length. [RA-SAFE] every indexed read that "
     "can fail on a truncated frame precedes all writes to the record on its path. Since the third round of independent changes the verdict of every RA-* rule comes from rules_reasm.py: bounded families of frame histories (every permutation of later frames, duplicates before and after delivery, loss then next message, first frame lost, foreign-counter frames, two streams differing in one key component or only in how the key's numbers split, packed-key collisions, follow-up with the same counter, truncated frames) with symbolic payload and padding bytes are fed to _decode_fast_message interpreted by absint.py with a persistent buffer map, and the deliveries are compared with what the property text demands; the structural rules above are run as confirmation (they give the all-histories argument when they recognise the spelling) and never raise an alarm themselves. UNDECIDED: correctness over all interleavings, 'returned exactly when "
     "the last missing frame arrives', recovery after loss -- history quantifiers that belong to model checking."
+    ' Seventh round: [DEC-REACH] the addressing the inner stage (and with it the reassembly key) receives is the addressing of the frame, decided on the interpreted decode path for 59904, 126208 and 130306 sent from 7 to 5.'
 )
 ASSUMPTIONS = ["CPython ast parser", "cfg.py (if/elif/else, returns)", "sym.py def-use substitution", "frames arrive byte-reversed (C07)"]
 
